@@ -66,6 +66,26 @@ def gen_ops(ctx):
                     if quick and rng.random() < 0.45 and n not in (nd - 1, nd, 11, 13):
                         continue
                     ops.append("save %s %d %d %d" % (h, v, gm, n)); meta.append(("save", ver, v, gm, n, nd))
+    # many banks in one section: section sizes beyond 64 KiB (capacity arithmetic in narrower types shows here, with destinations that are
+    # too small by multiples of 2^16 or just hold a whole number of 64 KiB less than a section)
+    for k in range(1 if quick else 6):
+        ver = 2 if k % 2 == 0 else 1
+        cm, cp = rng.choice([(8, 1), (1, 9), (10, 11), (12, 2)])
+        img = gen_wopn.bank_image(rng, ver, cm, cp)
+        h = img.hex()
+        ops.append("load " + h); meta.append(("load", ver))
+        for v in ((2, 1) if not quick else (rng.choice([1, 2]),)):
+            isz = 65 if v == 1 else 69
+            nd = needed(len(img), cm, cp, v)
+            hdr = nd - isz * 128 * (cm + cp)
+            s1, s2 = isz * 128 * cm, isz * 128 * cp
+            sizes = {nd - 1, nd, hdr - 1, hdr, hdr + s1 - 1, hdr + s1, hdr + s1 % 65536, hdr + s1 % 65536 + 1, hdr + s1 + s2 % 65536, hdr + s1 + s2 % 65536 - 1,
+                     hdr + (s1 + s2) % 65536, hdr + 8320, hdr + 8832}
+            for j in (1, 2, 3):
+                sizes |= {nd - 65536 * j, nd - 65536 * j - 1, nd - 65536 * j + 1}
+            sizes |= {rng.randrange(nd + 1) for _ in range(4)}
+            for n in sorted(x for x in sizes if 0 <= x):
+                ops.append("save %s %d 0 %d" % (h, v, n)); meta.append(("save", ver, v, 0, n, nd))
     # OPNI
     for k in range(40 if quick else 400):
         ver = rng.choice([1, 2, 2])
@@ -145,7 +165,7 @@ def run(tier, replay=None):
         kinds[m[0]] = kinds.get(m[0], 0) + 1
     ctx.cov.update({
         "evaluations": len(ops), "distinct_nontrivial": len(set(o for o in impl if not o.startswith("err") and not o.startswith("bad"))),
-        "rule": "structured WOPN/OPNI images (1..3+1..2 banks, zero counts, boundary names/offsets/delays) x load, save-load round trips for versions 2/1/0 "
+        "rule": "structured WOPN/OPNI images (1..3+1..2 banks, one to six images with 8..12 banks in a section and destinations chosen around multiples of 64 KiB, zero counts, boundary names/offsets/delays) x load, save-load round trips for versions 2/1/0 "
                 "with and without struct modifications the loader cannot produce, saves into destinations of 0..needed+40 bytes (exact-size heap blocks under ASan); "
                 "non-trivial = distinct observation that is not an error code",
         "traces_validated_against_impl": len(ops) - ndiff, "disagreements": ndiff, "monitor_failures": len(fails),
@@ -153,4 +173,4 @@ def run(tier, replay=None):
         "samples": [{"op": ops[i][:100] + "...", "impl": impl[i][:160]} for i in ctx.rng.sample(range(len(ops)), min(5, len(ops)))],
         "exhaustive": False})
     return ctx.finish(trusted_extra=["struct field values reach the C code only through the load+modify path of the harness (values are those of the C struct types)"],
-                      assumptions=["calloc succeeds for the bank counts used (≤ 3 banks)"])
+                      assumptions=["calloc succeeds for the bank counts used (≤ 23 banks)"])
